@@ -118,17 +118,19 @@ def check_L1_weights(S, p):
         reqs.append(E.l1_request(cs, smap, project))
         meta.append((cs, smap, project))
         S.count("L1_cohorts")
-    if p["i"] % 4 == 1:
-        # more than ~1090 called chromosomes, projected to about half, intermediate allele frequency: hypergeometric tails underflow
+    if p["i"] % 2 == 1:
+        # 1000 and more called chromosomes, projected to about half, intermediate allele frequency: the binomial coefficients leave the
+        # f64 range one after the other (C(N, N/2) first, from N = 1030; the numerator terms later) and hypergeometric tails underflow
         rng = rng_for(seed, "c10", p["name"], "L1big")
-        ns = rng.choice([545, 600, 800])
+        ns = rng.choice([500, 508, 512, 515, 517, 519, 521, 523, 525, 527, 529, 531, 535, 540, 545, 600, 800, 1200])
         samples = ["s%d" % j for j in range(ns)]
         recs = []
+        pm = rng.choice([0.0, 0.0, 0.004, 0.01])
         for ri, pf in enumerate([0.5, 0.45, 0.6, 0.02, 0.98, 0.5]):
-            recs.append(Record("c1", 1 + ri, [gt((1 if rng.random() < pf else 0, 1 if rng.random() < pf else 0), False) for _ in samples]))
+            recs.append(Record("c1", 1 + ri, [gt((None, None), False) if rng.random() < pm else gt((1 if rng.random() < pf else 0, 1 if rng.random() < pf else 0), False) for _ in samples]))
         cs = CallSet(samples, [("c1", 10 ** 6)], recs)
         smap = [(s_, None) for s_ in samples]
-        project = [rng.choice([ns, ns - 1, ns + 1, 2 * (ns // 4)])]
+        project = [rng.choice([ns, ns - 1, ns + 1, ns - 7, ns + 6, 2 * (ns // 4)])]
         reqs.append(E.l1_request(cs, smap, project))
         meta.append((cs, smap, project))
         S.count("L1_cohorts")
